@@ -147,7 +147,22 @@ def main():
     nums = assignments(cn, 'number')
     if len(nums) != 2:
         die('_cn_handler assigns `number` %d times (expected: e-notation and plain)' % len(nums))
-    plains = [n for n in nums if norm(n) == expr_of('float(node.text.strip())')]
+    # the text may pass through Transpiler._number_text(node, text, lexical_form), which must return the stripped text
+    # unchanged (or raise): then float(self._number_text(node, X, F)) is float(X.strip())
+    tr = find_class(ptree, 'Transpiler')
+    has_nt = any(isinstance(n, ast.FunctionDef) and n.name == '_number_text' for n in tr.body)
+    if has_nt:
+        nt = body_wo_doc(find_method(tr, '_number_text'))
+        shape = [type(x).__name__ for x in nt]
+        if not (shape == ['Assign', 'If', 'Return'] and ast.unparse(nt[0]) == "text = (text or '').strip()"
+                and ast.unparse(nt[2]) == 'return text' and len(nt[1].body) == 1 and isinstance(nt[1].body[0], ast.Raise)
+                and not nt[1].orelse and ast.unparse(nt[1].test) == 'not lexical_form.fullmatch(text)'):
+            die('Transpiler._number_text is not "strip, check the lexical form, return the text": %s'
+                % ' ; '.join(ast.unparse(x) for x in nt))
+    PLAIN = ['float(node.text.strip())'] + (['float(self._number_text(node, node.text, _CN_REAL))'] if has_nt else [])
+    MANT = ['node.text.strip()'] + (['self._number_text(node, node.text, _CN_DECIMAL)'] if has_nt else [])
+    EXPO = ['int(node[0].tail.strip())'] + (['int(self._number_text(node, node[0].tail, _CN_INTEGER))'] if has_nt else [])
+    plains = [n for n in nums if norm(n) in [expr_of(x) for x in PLAIN]]
     if len(plains) != 1:
         die('_cn_handler: no (single) plain <cn> conversion float(node.text.strip()): %s'
             % ' / '.join(ast.unparse(n) for n in nums))
@@ -162,10 +177,10 @@ def main():
     fmt = arg.left.value
     pieces = split_format(fmt)
     man = assignments(cn, 'mantissa')
-    if len(man) != 1 or norm(man[0]) != expr_of('node.text.strip()'):
+    if len(man) != 1 or norm(man[0]) not in [expr_of(x) for x in MANT]:
         die('_cn_handler: mantissa is not node.text.strip()')
     exps = assignments(cn, 'exponent')
-    if len(exps) != 1 or norm(exps[0]) != expr_of('int(node[0].tail.strip())'):
+    if len(exps) != 1 or norm(exps[0]) not in [expr_of(x) for x in EXPO]:
         die('_cn_handler: exponent is not int(node[0].tail.strip())')
     rets = [n for n in ast.walk(cn) if isinstance(n, ast.Return)]
     if len(rets) != 1 or norm(rets[0].value) != expr_of('self.number_generator(number, units)'):
